@@ -4,12 +4,14 @@ package main
 import (
 	"context"
 	"encoding/json"
+	"errors"
 	"fmt"
 	"io"
 	"os"
 	"os/signal"
 	"syscall"
 
+	"github.com/invopop/gobl/internal/cli"
 	"github.com/spf13/cobra"
 )
 
@@ -70,6 +72,11 @@ func encode(in any, out io.WriteCloser, indent bool) error {
 func printError(err error) {
 	enc := json.NewEncoder(os.Stderr)
 	enc.SetIndent("", "\t") // always indent errors
+	var ce *cli.Error
+	if !errors.As(err, &ce) {
+		// usage and file errors: still provide a structured record
+		err = &cli.Error{Code: cli.StatusBadRequest, Message: err.Error()}
+	}
 	if err = enc.Encode(err); err != nil {
 		_, _ = fmt.Fprintln(os.Stderr, err)
 	}
